@@ -37,8 +37,10 @@ impl<'a> OffsetCursor<'a> {
     /// Returns a new [`OffsetCursor`] at the beginning of the given [`typst_syntax::Span`] based
     /// on the current cursor.
     pub fn push_to_span(self, span: typst_syntax::Span) -> Self {
-        let new_byte = self.doc.range(span).unwrap().start;
-
-        self.push_to(new_byte)
+        // A detached span (a node that is missing from the source) has no position: stay put.
+        match self.doc.range(span) {
+            Some(range) => self.push_to(range.start),
+            None => self,
+        }
     }
 }
